@@ -1338,7 +1338,7 @@ impl IndexManager {
     /// by appending `updates` in order (pre-state of the inductive-step harnesses). The sections
     /// are filled in place, after the file sits in the map (keeps the shapes visible to the
     /// model checker).
-    pub fn verif_from_parts(bucket: u8, sorted: Vec<IndexEntry>, updates: Vec<UpdateEntry>) -> Self {
+    pub fn verif_from_parts(bucket: u8, sorted: &[IndexEntry], updates: &[UpdateEntry]) -> Self {
         let mut mgr = Self {
             indices: OneBucketMap::new(),
             base_path: PathBuf::new(),
@@ -1346,10 +1346,10 @@ impl IndexManager {
         mgr.indices.insert(bucket, Self::verif_empty_file(bucket));
         if let Some(index) = mgr.indices.get_mut(&bucket) {
             for e in sorted {
-                index.entries.push(e);
+                index.entries.push(e.clone());
             }
             for u in updates {
-                index.update_section.append(u);
+                index.update_section.append(u.clone());
             }
         }
         mgr
@@ -1358,16 +1358,16 @@ impl IndexManager {
     /// `search_both_sections` on a free-standing index file (sorted section + update section
     /// produced by appending `updates` in order), without going through the bucket map.
     pub fn verif_search_both(
-        sorted: Vec<IndexEntry>,
-        updates: Vec<UpdateEntry>,
+        sorted: &[IndexEntry],
+        updates: &[UpdateEntry],
         search_key: &[u8; 9],
     ) -> Option<IndexEntry> {
         let mut file = Self::verif_empty_file(0);
         for e in sorted {
-            file.entries.push(e);
+            file.entries.push(e.clone());
         }
         for u in updates {
-            file.update_section.append(u);
+            file.update_section.append(u.clone());
         }
         let r = Self::search_both_sections(&file, search_key);
         std::mem::forget(file);
